@@ -181,8 +181,17 @@ def rxn_case(draw):
 
 
 def check_rxn(case, ctx):
-    from pmutt import constants as c
+    """every quantity x every form (state / delta / activation) on the generated reaction, drawn pair first"""
     rxn, sp = build_reaction(case)
+    pairs = [(case['quantity'], case['form'])] + [(q_, f_) for q_ in ('Cv', 'Cp', 'U', 'H', 'S', 'F', 'G', 'E')
+                                                  for f_ in ('state', 'delta', 'act')
+                                                  if (q_, f_) != (case['quantity'], case['form'])]
+    for k_, (q_, f_) in enumerate(pairs):
+        _check_rxn_q(dict(case, quantity=q_, form=f_), ctx, rxn, sp, k_ == 0)
+
+
+def _check_rxn_q(case, ctx, rxn, sp, drawn):
+    from pmutt import constants as c
     q, u, form = case['quantity'], case['unit'], case['form']
     dimless, energy = QUANT[q]
     T, P = case['T'], case['P']
@@ -193,7 +202,8 @@ def check_rxn(case, ctx):
     used = {i for i, _ in case['react'] + case['prod'] + (case['ts'] or [])}
     if q == 'E':
         if not all(case['species'][i]['cls'] == 'StatMech' for i in used):
-            ctx.exclude('E needs species with get_EoRT')
+            if drawn:
+                ctx.label('E-without-StatMech-species-skipped')
             return
     has_ts = case['ts'] is not None
     ctx.label('cls:' + case['cls'], 'form:' + form, 'q:' + q)
@@ -214,8 +224,9 @@ def check_rxn(case, ctx):
         ctx.nontrivial(case['rev'] or act)
     else:
         if not has_ts and not clamped:
-            ctx.exclude('activation getters need a transition state')
-            return
+            return            # activation getters need a transition state
+        if not hasattr(rxn, 'get_%s_act' % q):
+            return            # (no activation form of this quantity)
         if q == 'E':
             dim = rxn.get_E_act(units=arg_u, rev=case['rev'], **kw)
             base = rxn.get_EoRT_act(rev=case['rev'], **kw)
@@ -239,14 +250,14 @@ def check_rxn(case, ctx):
 CLAUSES = [
     Clause('C04.species', species_case(), check_species, 800, 6000,
            'object = a mode model, a StatMech species (verbose / use_references with References / S_elements / include_ZPE) or a '
-           'Nasa / Nasa9 / Shomate species (phase, coverage model + x, S_elements, scalar or array T) x quantity in '
-           '{Cv,Cp,U,H,S,F,G,E} x unit = any key of constants.R or its per-g / per-kg form: value with units = dimensionless value '
+           'Nasa / Nasa9 / Shomate species (phase, coverage model + x, S_elements, scalar or array T), every quantity in '
+           '{Cv,Cp,U,H,S,F,G,E} per case x unit = any key of constants.R or its per-g / per-kg form: value with units = dimensionless value '
            '(same kwargs) x R(molar unit) (x T) (/ molar mass summed by the harness); pressure shifts the dimensional entropy / '
            'Gibbs energy of gas species by -+R ln P. Non-trivial = P != 1, a per-mass or per-molecule unit, S_elements or coverage',
            quick_shards=4),
     Clause('C04.reaction', rxn_case(), check_rxn, 300, 3000,
            'C08 reactions (Reaction / ChemkinReaction / SurfaceReaction, per-species blocks) x state / delta (rev, act) / '
-           'activation getters x 8 quantities x 16 units: dimensional = dimensionless x R (x T) with the same rev/act/kwargs. '
+           'activation getters, all 8 quantities x 3 forms per case, x 16 units: dimensional = dimensionless x R (x T) with the same rev/act/kwargs. '
            'Non-trivial = rev or act set, an activation getter, or a per-species block', quick_shards=4),
 ]
 ASSUMPTIONS = ['R(unit) from pmutt.constants (C12); atomic weights of H, C, O, N, Pt typed in the harness',
